@@ -157,15 +157,21 @@ func (e *Enc) acquireHavoc(obj Term, st types.Type, decl *LockDecl) {
 			}
 			continue
 		}
-		nv := e.fresh("acq_"+f.Name(), e.sortOf(f.Type()))
+		nv0 := e.fresh("acq_"+f.Name(), e.sortOf(f.Type()))
+		e.assume(e.typeFacts(nv0, f.Type(), e.cur))
+		// an object allocated in this activation and not yet shared keeps what this thread stored in it
+		nv := e.define("acqv_"+f.Name(), e.sortOf(f.Type()), tIte(e.isFresh(obj), e.load(e.cur, l), nv0))
 		e.store(e.cur, l, nv)
-		e.assume(e.typeFacts(nv, f.Type(), e.cur))
+		if e.isFresh(obj) != tFalse {
+			// contents reachable from the field are havocked only for shared objects: handled by the ite above for
+			// the field itself; for maps/slices the content havoc below applies to the (possibly new) referent
+		}
 		switch u := f.Type().Underlying().(type) {
 		case *types.Map:
 			for _, h := range e.mapHeaps(u) {
 				_, vs := splitArraySort(h[1])
 				H := e.hget(e.cur, h[0], h[1])
-				e.hset(e.cur, h[0], h[1], tStore(H, nv, e.fresh("acq_"+f.Name()+"_content", vs)))
+				e.hset(e.cur, h[0], h[1], tIte(e.isFresh(obj), H, tStore(H, nv, e.fresh("acq_"+f.Name()+"_content", vs))))
 			}
 			ml := e.mapHeaps(u)[2]
 			e.assume(tLe("0", tSel(e.hget(e.cur, ml[0], ml[1]), nv)))
@@ -173,7 +179,7 @@ func (e *Enc) acquireHavoc(obj Term, st types.Type, decl *LockDecl) {
 			hs := fmt.Sprintf("(Array Int (Array Int %s))", e.sortOf(u.Elem()))
 			h := elemHeap(u.Elem())
 			H := e.hget(e.cur, h, hs)
-			e.hset(e.cur, h, hs, tStore(H, sx("s-base", nv), e.fresh("acq_"+f.Name()+"_elems", fmt.Sprintf("(Array Int %s)", e.sortOf(u.Elem())))))
+			e.hset(e.cur, h, hs, tIte(e.isFresh(obj), H, tStore(H, sx("s-base", nv), e.fresh("acq_"+f.Name()+"_elems", fmt.Sprintf("(Array Int %s)", e.sortOf(u.Elem()))))))
 		}
 	}
 	// `protects Type.field`: that field of every object of another struct type of the same package
@@ -277,7 +283,7 @@ func (e *Enc) guardCheck(addr ssa.Value, write bool, pos token.Pos) {
 }
 
 func (e *Enc) locksAtEntry() {
-	if e.fc != nil && e.fc.Opts["locks"] == "caller" {
+	if e.fc != nil && (e.fc.Opts["locks"] == "caller" || e.fc.Opts["locks"] == "release") {
 		return
 	}
 	e.heapDecl("$held", heldSort)
@@ -288,7 +294,7 @@ func (e *Enc) locksAtReturn(in *ssa.Return) {
 	if _, used := e.heapSort["$held"]; !used {
 		return
 	}
-	if e.fc != nil && e.fc.Opts["locks"] == "transfer" {
+	if e.fc != nil && (e.fc.Opts["locks"] == "transfer" || e.fc.Opts["locks"] == "release") {
 		e.used["lock hand-off: "+e.fn.String()+" returns holding a lock that a goroutine it spawned releases"] = true
 		return
 	}
